@@ -1,5 +1,6 @@
 import SR.Proofs.MarketRun
 import SR.Proofs.MarketTerm
+import SR.Proofs.MarketOpen
 /-!
 # C05 — parallel checking is schedule-independent, loses no work, terminates
 
@@ -60,6 +61,14 @@ theorem C05_no_lost_wakeup (k tc : Nat) (h : tc ≤ k) (ms : List Step) :
 theorem C05_openCount (k tc : Nat) (h : tc ≤ k) (ms : List Step) :
     (mrun (init k tc) ms).openCount ≤ (mrun (init k tc) ms).pcs.count .running :=
   (minv_mrun ms (minv_init k tc h)).p.oc
+
+/-- **While the market is open, `open_count` is EXACTLY the number of workers that are not waiting** (market created
+    for as many threads as there are workers, as the checkers do).  This is what makes "the last running worker found no
+    work" a sound reason to close the market: with a count that is too small the market would close while a colleague
+    still holds pending jobs, and they would be discarded. -/
+theorem C05_openCount_exact (k : Nat) (ms : List Step) (ho : (mrun (init k k) ms).isOpen = true) :
+    (mrun (init k k) ms).openCount = (mrun (init k k) ms).pcs.count .running :=
+  oinv_mrun k ms ho
 
 /-- **A stop is final**: a market that is closed (last worker found no work, any clone dropped — normal
     return or unwinding panic —, or the timeout fired) never opens again, whatever happens next. -/
